@@ -265,6 +265,10 @@ var standinPathPool = []string{
 
 var standinCorePool = []string{"/", "/a", "/a/", "/a/b", "/{x}", "/{x}/", "/a/{x}", "/a{x}", "/ab"}
 
+var standinDeepHostPool = []string{"a.b.com/", "a.{s}.com/", "{s}.{t}.com/", "/", "a.b.com/a", "{s}.{t}.com/a", "a.b.{u}/"}
+
+var standinDeepHosts = []string{"a.b.com", "ax.c.com", "a.c.com", "x.y.com", "a.b.comx", "b.a.com", "a.b.org", "a.b.com", "x.b.com"}
+
 var standinHostPool = []string{
 	"h.com/", "h.com/a", "h.com/{x}", "{s}.com/a", "{s}.com/{x}", "a.{s}.com/", "h.com/a/", "{s}.h.com/a", "a{s}.com/b",
 }
@@ -376,8 +380,10 @@ func checkSet(t *testing.T, st *standinStats, seen map[string]bool, patterns []s
 	if strings.Count(patterns[0], "/") >= 5 {
 		paths = deepProbes(accepted)
 	}
-	for _, host := range hosts {
-		for _, path := range paths {
+	// path-major order: consecutive probes differ in the host, so whatever a matching probe leaves in the
+	// pooled context is seen by a probe for another host
+	for _, path := range paths {
+		for _, host := range hosts {
 			st.Lookups++
 			got := realLookup(f, http.MethodGet, host, path)
 			key := fmt.Sprintf("%v|%v|%v", got.pattern, got.params, got.tsr)
@@ -469,6 +475,10 @@ func TestFoxvcStandinRouting(t *testing.T) {
 	mixed := append(append([]string{}, standinHostPool...), "/", "/a", "/{x}", "/a/")
 	rec(mixed, 0, nil, 2, standinHosts)
 	rec(standinDeepPool, 0, nil, 3, []string{""})
+	// hostnames with several wildcards in one label sequence, static and wildcard labels competing in the
+	// middle of the host, path-only fallback; the hosts are probed in a fixed order on one router, so state
+	// left in the pooled contexts by one probe is seen by the next
+	rec(standinDeepHostPool, 0, nil, 3, standinDeepHosts)
 	out, _ := json.Marshal(st)
 	fmt.Printf("STANDIN %s\n", out)
 	for _, m := range st.Mismatches {
